@@ -82,18 +82,18 @@ ADD = {
  "C06": "Also: compositions naming one resource twice (self-conflicting ones must refuse to fetch and release everything, incl. through the derive macro; shared repeats declare the union), custom setup handlers with a call journal (every member, once per member, in member order), two instantiations of every generic derived struct, decoy resources of the same types under dynamic ids 1 / 2^32 / 2^64-1 that nothing may touch. Declared access is compared as a set. Round 10: derived structs whose field types are tuples, parenthesised types or macro `$t:ty` fragments. Round 11: derive syntax zoo (default type parameter, const generic, path-qualified field types, raw identifiers, field attributes, lifetime bounds).",
  "C07": "Also: barriers and thread-local systems inside inner builders (zoo), profile ED (batches and systems with single dependencies and hints). Round 11: the isolation / dependency / barrier invariants are also judged for every layout INSIDE a batch; ballast shapes (groups filling to capacity) as inner plans; nesting up to 7 deep. Round 12: thread-local systems registered inside a batch stay in that batch's own list.",
  "C08": "Also: live meta-table iterators (IterOpen / IterNext), derived bundles, every acquisition also issued from a destructor during unwinding, zero-sized resources with clone_from; the concurrent part preempts between two cell operations (atomic_refcell linked with a scheduling point per operation) and checks linearizability. Round 11: every reached state probes a second, untouched world on the same thread. Round 12: an absent registered type precedes the present ones in the meta table; real-thread witness for guards moved to / dropped on another OS thread (rr --guardhop, 60 configurations).",
- "C09": "Also: five boundary dynamic-id triples ({0, MAX-1, MAX}, 32-bit-truncation and top-bit collisions, 2^32 neighbours) at reduced depth, exec with two-member data, presence queries while a guard of that resource is alive. Round 11: a zoo of nine unusual resource types (Box<dyn Resource>, Box / Arc, (), tuple, Option, Vec<Box<dyn Resource>>, Mutex) with the stored value's dynamic type probed after every step.",
+ "C09": "Also: five boundary dynamic-id triples ({0, MAX-1, MAX}, 32-bit-truncation and top-bit collisions, 2^32 neighbours) at reduced depth, exec with two-member data, presence queries while a guard of that resource is alive. Round 11: a zoo of nine unusual resource types (Box<dyn Resource>, Box / Arc, (), tuple, Option, Vec<Box<dyn Resource>>, Mutex) with the stored value's dynamic type probed after every step. Round 13: fetches of a present slot while a guard of it is alive succeed or panic, never answer None.",
  "C10": "Also: profile DJ, hints with dependency pairs, non-adjacent repeated dependencies, max_threads for stages wider than any pool, the ill-formed-call profile (a rejected call must not change later placements). Round 11: same-named distinct resource types.",
  "C11": "Also: async scripts with dispatches issued before the first wait, a narrow batch registered before the wide stage, the user-supplied pool handed over late or after a decoy pool, running-time hints 1 and 5, pools built with use_current_thread (stand-in models the building thread as a worker that only works inside install). Round 10: a batch (hand-written / MultiDispatcher controller) beside a sibling registered after / before it; the stand-in models rayon's pending-job query. Round 11: the wide stage inside a batch inside a batch with a default pool as wide as the shared one. Round 12: history of a dispatch_seq with a caught panic followed by a parallel dispatch.",
- "C12": "Also: 5..300 thread-local systems, a dispatch / the first wait after a dispatch runs every top-level thread-local system exactly once (also after a caught panic of an ordinary or a thread-local system, also with polling / accessors / a second dispatch in between), RunNow::run_now on the dispatcher runs them too; thread-local systems inside batches once per inner dispatch (controllers repeating 0/2/3 times); exactly-once across real threads (E4 hop witness, 80 configurations). Round 10: thread-local plans (top level, inside batches) on user-supplied / default pools of 1, 2, 3 threads. Round 11: the dispatcher handed back by a rejected try_into_sendable is dispatched, identified and converted again.",
- "C13": "Also: setup and dispose through Box<dyn RunNow>, two batches with one controller type, static data that first names a resource through a non-creating member, empty / anonymous / thread-local-only batches. Round 10: derived bundles with a type-parameter field, a tuple field, a macro-fragment field. Round 12: setups are counted in DynamicSystemData::setup reached through the library's default System::setup hook.",
- "C14": "Also: panics raised at the end of run (after the system wrote through its guards), controllers dispatching 2-3 times (hand-written and MultiDispatcher), two panicking systems, thread-local panics. Round 10: every single-panic scenario also with a typed (non-string) payload. Round 11/12: unnamed systems among named ones; two-panic histories first run inline in a child process (a dead child is reported as the violation).",
+ "C12": "Also: 5..300 thread-local systems, a dispatch / the first wait after a dispatch runs every top-level thread-local system exactly once (also after a caught panic of an ordinary or a thread-local system, also with polling / accessors / a second dispatch in between), RunNow::run_now on the dispatcher runs them too; thread-local systems inside batches once per inner dispatch (controllers repeating 0/2/3 times); exactly-once across real threads (E4 hop witness, 80 configurations). Round 10: thread-local plans (top level, inside batches) on user-supplied / default pools of 1, 2, 3 threads. Round 11: the dispatcher handed back by a rejected try_into_sendable is dispatched, identified and converted again. Round 13: the sendable form used directly (order of dispatch_seq, run counters); a dispatch issued from a destructor while the calling thread unwinds.",
+ "C13": "Also: setup and dispose through Box<dyn RunNow>, two batches with one controller type, static data that first names a resource through a non-creating member, empty / anonymous / thread-local-only batches. Round 10: derived bundles with a type-parameter field, a tuple field, a macro-fragment field. Round 12: setups are counted in DynamicSystemData::setup reached through the library's default System::setup hook. Round 13: setup / dispose of the sendable form.",
+ "C14": "Also: panics raised at the end of run (after the system wrote through its guards), controllers dispatching 2-3 times (hand-written and MultiDispatcher), two panicking systems, thread-local panics. Round 10: every single-panic scenario also with a typed (non-string) payload. Round 11/12: unnamed systems among named ones; two-panic histories first run inline in a child process (a dead child is reported as the violation). Round 13: a top-level dependent that ran at all in the panicking dispatch is flagged (before or after the panic); four-system plans whose last system has two dependencies.",
  "C15": "Also: a panicking background system under 9 scripts, stage width x pool size sweep, every sequence of 2..4|5 one/two-wide stages, feature-zoo plans with a batch and a thread-local system. Round 11: pipelines of 5..17 stages dispatched up to three times on one async dispatcher. Round 12: scripts in which the first setup call of one system panics and the caller sets up again.",
  "C16": "Also: dispatch from the only worker of a foreign one-thread pool; oracle that some explored schedule shows par children overlapping; Par::with with the contested id behind up to 40 other entries and with statically typed leaves; a second setup on a fresh world reaches every leaf again. Round 10: leaves over two distinct resource types that share one type name. Round 11: every small tree built with the par! / seq! macros and with new / with behaves identically.",
  "C17": "State key and probes cover the get path, iteration with live guards, and address-changing casts after correct ones. Round 10: a second sweep in which resources reach the world by insert, the entry API or a default provider, with decoys under a dynamic id; every history ends by iterating its own world. Round 11: the histories run a second time with a zero-sized type in the role of the type whose cast changes the address.",
  "C18": "Also: three-resource funnels, hints with dependency pairs, names that collide after sanitising, unnamed batches, repeated dependency names. Round 12: registrations whose running_time() panics unwind with the user's payload.",
- "C19": "Also: relabelling sweep over every ordered pair of a 66|130-id universe (pigeonhole), rayon thread counts 1/2/3/64, naming / un-naming, all 24 relabellings that keep controller-declared resources fixed, parametric families under every transformation and in the no-parallel twin, and: the plan does not depend on (rightly) rejected calls. Round 11: a second builder alive and filled in alternation; statically typed plans (profile S); the plan built on a freshly started thread equals the plan built after thousands of others.",
- "C20": "Also: a builder printed after every registration prints and builds the same as one printed once; sequences continue after a rejected call; batches, groups of 2+. Round 10: the layout is identified again on the same dispatcher after a clean dispatch and after a caught panic. Round 12: a registration whose running_time() panics leaves nothing behind in the printed plan.",
+ "C19": "Also: relabelling sweep over every ordered pair of a 66|130-id universe (pigeonhole), rayon thread counts 1/2/3/64, naming / un-naming, all 24 relabellings that keep controller-declared resources fixed, parametric families under every transformation and in the no-parallel twin, and: the plan does not depend on (rightly) rejected calls. Round 11: a second builder alive and filled in alternation; statically typed plans (profile S); the plan built on a freshly started thread equals the plan built after thousands of others. Round 13: relabelling sweep also over batches whose inner systems touch both resources.",
+ "C20": "Also: a builder printed after every registration prints and builds the same as one printed once; sequences continue after a rejected call; batches, groups of 2+. Round 10: the layout is identified again on the same dispatcher after a clean dispatch and after a caught panic. Round 12: a registration whose running_time() panics leaves nothing behind in the printed plan. Round 13: placeholders of unnamed systems do not depend on other systems' names and are pairwise distinct; thread-local plans.",
 }
 
 checks=[]
